@@ -98,9 +98,32 @@ def run(F, chk):
         E = ExprBuilder(cfg, fold_named=True)
         M3.fn(b.path)
         stores = [(blk, s) for blk in b.blocks if not blk.cleanup for s in blk.stmts if s.k == 'assign' and show(E.target(s.place)) == '(*self).pos']
-        good = [1 for (blk, s) in stores if show(E.rvalue(s.rv)) in ('cmp::min(Add((*self).pos, amt), (*self).cap)', 'cmp::min((*self).cap, Add((*self).pos, amt))',
-                                                                    'Ord::min(Add((*self).pos, amt), (*self).cap)')]
-        if stores and len(good) == len(stores):
+        SUM = 'Add((*self).pos, amt)'
+        CAP = '(*self).cap'
+        good = []
+        expanded = []
+        for (blk, s) in stores:
+            o = Operand(s.rv['o']) if s.rv['k'] == 'use' else None
+            ds = cfg.defs.get(o.place.l, []) if (o is not None and o.place is not None and o.place.is_local) else []
+            if len(ds) > 1 and all(si != 'call' for (_, si, _) in ds):
+                # pos = <phi temp>: judge every definition of the temp where it is made
+                for (bi, si, d) in ds:
+                    expanded.append((b.blocks[bi], d))
+            else:
+                expanded.append((blk, s))
+        n_stores = len(expanded)
+        for (blk, s) in expanded:
+            v = show(E.rvalue(s.rv))
+            if v in ('cmp::min(%s, %s)' % (SUM, CAP), 'cmp::min(%s, %s)' % (CAP, SUM), 'Ord::min(%s, %s)' % (SUM, CAP), 'Ord::min(%s, %s)' % (CAP, SUM)):
+                good.append(1)
+                continue
+            # the same clamp written as a conditional: pos = pos+amt under pos+amt <= cap, pos = cap under pos+amt > cap
+            kn = [(show(c), t) for (c, t, D) in guards.known(cfg, E, blk.i) if t is True]
+            le = any(k in ('Le(%s, %s)' % (SUM, CAP), 'Lt(%s, %s)' % (SUM, CAP), 'Ge(%s, %s)' % (CAP, SUM), 'Gt(%s, %s)' % (CAP, SUM)) for k, _ in kn)
+            gt = any(k in ('Gt(%s, %s)' % (SUM, CAP), 'Ge(%s, %s)' % (SUM, CAP), 'Lt(%s, %s)' % (CAP, SUM), 'Le(%s, %s)' % (CAP, SUM)) for k, _ in kn)
+            if (v == SUM and le) or (v == CAP and gt):
+                good.append(1)
+        if stores and len(good) == n_stores:
             M3.ok(sample={'consume': 'pos = min(pos + amt, cap)'})
         else:
             M3.violation(('consume-shape', b.path), 'consume no longer stores pos = min(pos + amt, cap): %s' % [show(E.rvalue(s.rv))[:60] for (_, s) in stores], where=b.loc(None))
